@@ -4,6 +4,8 @@ package pooldrv
 // harnesses of properties C05 and C04.
 
 import (
+	"fmt"
+	"math/bits"
 	"sync"
 	"sync/atomic"
 
@@ -164,7 +166,75 @@ func Gen(c *hmain.Ctx) {
 		kind := 10 + i%2
 		add("contention", kind, randomCase(kind, nil, false, true))
 	}
+	// 6. the low-memory pool's size classes (event.go: 33 sync.Pools, poolIndex = bits.Len(size); the other streams use the
+	//    sizes 1..8, i.e. classes 1..4): every goroutine asks for its own size, drawn around the class boundaries 2^k - 1, 2^k,
+	//    2^k + 1 up to 2^32 - 1 (class 32, the last one).  get() picks the class before the capacity test and back() picks it
+	//    again from event.Size: a regression in poolIndex / syncPools (e.g. 32 pools, bits.Len32 of a truncated size, an index
+	//    computed from a stale Size) panics with an index out of range or hands an event to the wrong class: 214 / LTS replay
+	for i := 0; i < 300*c.Scale; i++ {
+		cs := randomCase(10, nil, false, r.Bool())
+		used := map[int]bool{}
+		add("size-classes", 10, decorate(cs, 0, func(int) int {
+			for {
+				k := r.Range(0, 32)
+				v := (1 << k) + r.Range(-1, 1)
+				if k == 32 {
+					v = 1<<32 - 1 - r.Intn(3)
+				}
+				if v >= 1 && v < 1<<32 && !used[v] {
+					used[v] = true
+					return v
+				}
+			}
+		}, nil))
+	}
+	// 7. the standard pool's recycle thresholds (event.go resetEvent: Size > avgEventSize -> ReleaseBufMem, cap(Buf) > 4096 ->
+	//    new 1 KiB Buf, node pool > 64 -> ReleasePoolMem; the other streams never touch the event and use avg 1024 with sizes
+	//    1..8): avg 4 with goroutine sizes 1..8, and after most gets the holder uses the event as the pipeline stages do
+	//    (op 9: grows Buf by 100 or 5000 bytes, decodes a 100-field object / a 3000-byte string into Root).  Every event get() returns
+	//    is checked (Buf empty, Root decodes and reads back): a regression that resets only on one side of a threshold, or
+	//    releases memory the Root still points into, shows as 214 (code 2 / 3 or a panic of the real code)
+	for i := 0; i < 300*c.Scale; i++ {
+		kind := 11 // three standard-pool cases, one low-memory case (which has no resetEvent: Event.reset only)
+		if i%4 == 3 {
+			kind = 10
+		}
+		cs := randomCase(kind, nil, false, r.Bool())
+		add("recycle", kind, decorate(cs, []int{2, 4, 6}[r.Intn(3)], nil, func() int {
+			if r.Chance(1, 4) {
+				return 0
+			}
+			return r.Range(1, 15)
+		}))
+	}
 	runJobs(c, jobs)
+}
+
+// decorate rewrites a case: avg > 0 adds the option (1 avg) to the gate list; size != nil gives goroutine t the id / size
+// size(t) (op 8); dirty != nil puts (9 dirty()) behind every get (0 = none).
+func decorate(cs hx.Sx, avg int, size func(t int) int, dirty func() int) hx.Sx {
+	it := hx.Items(cs)
+	gates := append([]hx.Sx(nil), hx.Items(it[3])...)
+	if avg > 0 {
+		gates = append(gates, op(1, avg))
+	}
+	var ths []hx.Sx
+	for t, sc := range hx.Items(it[4]) {
+		var ops []hx.Sx
+		if size != nil {
+			ops = append(ops, op(8, size(t)))
+		}
+		for _, o := range hx.Items(sc) {
+			ops = append(ops, o)
+			if dirty != nil && hx.Int(hx.Items(o)[0]) == 0 {
+				if w := dirty(); w != 0 {
+					ops = append(ops, op(9, w))
+				}
+			}
+		}
+		ths = append(ths, hx.L(ops...))
+	}
+	return hx.L(it[0], it[1], it[2], hx.L(gates...), hx.L(ths...))
 }
 
 // failed: the observation carries a stuck / timeout / panic record
@@ -227,6 +297,18 @@ func runJobs(c *hmain.Ctx, jobs []*job) {
 		}
 		if slept {
 			c.W.Count("a goroutine reached Cond.Wait")
+		}
+		switch j.stream {
+		case "size-classes":
+			top := 0
+			for _, sc := range hx.Items(hx.Items(j.cs)[4]) {
+				if o := hx.Items(hx.Items(sc)[0]); hx.Int(o[0]) == 8 {
+					top = max(top, bits.Len(uint(hx.Int(o[1]))))
+				}
+			}
+			c.W.Count(fmt.Sprintf("pool: largest size class of the case %d..%d", top/8*8, top/8*8+7))
+		case "recycle":
+			c.W.Count(fmt.Sprintf("pool: recycle case on pool kind %d", j.which))
 		}
 		c.W.Case(j.stream, j.which, j.cs, j.obs, true)
 	}
